@@ -57,19 +57,41 @@ var sigTime = time.Unix(1700000000, 0)
 // ---- environment: DID documents ------------------------------------------------------------------------------------
 
 type docStore struct {
-	mu sync.RWMutex
-	m  map[string]*did.Document
+	mu          sync.RWMutex
+	m           map[string]*did.Document
+	deactivated map[string]bool // latest version is deactivated: resolves only with AllowDeactivated (as the did:nuts store)
 }
 
-func (d *docStore) Resolve(id did.DID, _ *resolver.ResolveMetadata) (*did.Document, *resolver.DocumentMetadata, error) {
+func (d *docStore) Resolve(id did.DID, md *resolver.ResolveMetadata) (*did.Document, *resolver.DocumentMetadata, error) {
 	d.mu.RLock()
 	defer d.mu.RUnlock()
 	doc, ok := d.m[id.String()]
 	if !ok {
 		return nil, nil, resolver.ErrNotFound
 	}
+	if d.deactivated[id.String()] && (md == nil || !md.AllowDeactivated) {
+		return nil, nil, resolver.ErrDeactivated
+	}
 	cp := *doc
-	return &cp, &resolver.DocumentMetadata{}, nil
+	return &cp, &resolver.DocumentMetadata{Deactivated: d.deactivated[id.String()]}, nil
+}
+
+func (d *docStore) setDeactivated(id did.DID, v bool) {
+	d.mu.Lock()
+	if d.deactivated == nil {
+		d.deactivated = map[string]bool{}
+	}
+	d.deactivated[id.String()] = v
+	d.mu.Unlock()
+}
+
+// remove makes the DID unresolvable (ErrNotFound) and returns the document it had.
+func (d *docStore) remove(id did.DID) *did.Document {
+	d.mu.Lock()
+	defer d.mu.Unlock()
+	doc := d.m[id.String()]
+	delete(d.m, id.String())
+	return doc
 }
 
 func (d *docStore) put(doc *did.Document) {
@@ -80,7 +102,7 @@ func (d *docStore) put(doc *did.Document) {
 
 type kaKey struct {
 	fragment string
-	pub      *ecdsa.PublicKey
+	pub      any // public key (the node and peer identities use *ecdsa.PublicKey on P-256)
 }
 
 func mkDoc(id did.DID, keys []kaKey, services ...did.Service) *did.Document {
@@ -125,6 +147,18 @@ type txInfo struct {
 	patterns [][]byte
 	absent   bool // payload withheld from the nodes at set-up
 	oldKey   bool // built before n4 rotated its keyAgreement key: n4 can no longer decrypt the list
+	// aliasOf: this transaction was built by a party that does NOT hold the payload: it only copied the payload hash of
+	// aliasOf (public in every transaction) under a participant list of its own. Its payload bytes are those of aliasOf;
+	// the taint scan judges them by the participant list of aliasOf.
+	aliasOf *txInfo
+}
+
+// ref names the transaction in witnesses ("" while/if CreateTransaction has not produced one for the payload).
+func (t *txInfo) ref() string {
+	if t.tx == nil {
+		return ""
+	}
+	return t.tx.Ref().String()
 }
 
 func (t *txInfo) isListed(id did.DID) bool {
@@ -441,6 +475,9 @@ func (n *node) onSend(c *pconn, envelope interface{}) error {
 
 	// taint scan over the wire bytes
 	for _, t := range n.w.all {
+		if t.aliasOf != nil {
+			continue // same bytes as aliasOf, which is the transaction whose participant list decides
+		}
 		hit := false
 		for _, pat := range t.patterns {
 			if bytes.Contains(wire, pat) {
@@ -458,13 +495,25 @@ func (n *node) onSend(c *pconn, envelope interface{}) error {
 		}
 		n.r.Count("private_marker_hits/"+typ+"/"+relation(c, t), 1)
 		witness := map[string]any{"node": n.name, "node_did": n.id.String(), "peer_kind": c.kind, "peer": c.conn.Peer().String(), "peer_authenticated_truth": c.truthAuth,
-			"envelope_type": typ, "transaction": t.tx.Ref().String(), "transaction_class": t.class, "participants": keys(t.listed), "while_handling": n.cur,
+			"envelope_type": typ, "transaction": t.ref(), "transaction_class": t.class, "participants": keys(t.listed), "while_handling": n.cur,
 			"envelope_hex_head": hex.EncodeToString(wire[:min(len(wire), 200)])}
 		if typ != "TransactionPayload" {
 			n.r.Violation("C15/leak/"+typ, fmt.Sprintf("payload of private transaction (%s) carried by a %s message to peer %s", t.class, typ, c.kind), witness)
 			continue
 		}
+		// the response names the transaction it answers for: another transaction than t with t's payload hash?
+		via := n.w.byH[hash.FromSlice(cp.GetTransactionPayload().TransactionRef)]
+		if via != nil && via.aliasOf == t {
+			witness["answered_for_transaction"] = via.tx.Ref().String()
+			witness["answered_for_transaction_class"] = via.class
+			witness["answered_for_transaction_participants"] = keys(via.listed)
+			witness["payload_hash"] = t.tx.PayloadHash().String()
+		}
 		switch {
+		case via != nil && via.aliasOf == t && c.truthAuth && via.isListed(c.truthDID) && !t.isListed(c.truthDID):
+			// the peer passes every check for the transaction it asked for; the bytes it receives are those of t
+			n.r.Violation("C15/leak/TransactionPayload/other-transaction-with-same-payload-hash", fmt.Sprintf("private payload (%s) sent by %s to authenticated peer %s that is not on its participant list, "+
+				"in answer to a query for another transaction (%s) that carries the same payload hash and lists the peer", t.class, n.name, c.kind, via.class), witness)
 		case !c.truthAuth:
 			n.r.Violation("C15/leak/TransactionPayload/peer-unauthenticated", fmt.Sprintf("private payload (%s) sent by %s over unauthenticated connection %s", t.class, n.name, c.kind), witness)
 		case !t.isListed(c.truthDID):
@@ -791,6 +840,9 @@ func TestCheck(t *testing.T) {
 	r.SetRule("cases = (node situation [listed | listed-cannot-decrypt | listed-key-missing | listed-invalid-entry | unlisted | unlisted-can-decrypt | unreadable-list | no-node-did | public], peer relation " +
 		"[unauthenticated | authenticated-unlisted | authenticated-listed], message type, transaction class / inbound-payload variant / certificate case, outcome). " +
 		"Worlds (DIDs, keyAgreement keys, DAG with seeded participant subsets, hostile participant lists) and the message order are functions of the seed. " +
+		"Further case families: known transactions re-delivered in TransactionList messages (conversation kind, state of the known transaction, payload variant, stored before/after); " +
+		"transactions re-using the payload hash of a private transaction under the sender's own participant list (variant, querying peer, response); " +
+		"CreateTransaction over participant resolution/key situations (list shape, outcome) followed by every query type; payload queries while the node's own DID document is deactivated/unresolvable/keyless. " +
 		"A case is non-trivial when the addressed node holds at least one private payload (or, for authenticator cases, a certificate was evaluated); distinct by the tuple above.")
 	r.Require(r.Pick(500, 5000), r.Pick(80, 150))
 	r.Assume("peer identity (Authenticated, NodeDID) is what the connection carries: set by the harness for the three peer kinds, produced by the real tlsAuthenticator for the certificate cases")
@@ -811,6 +863,13 @@ func TestCheck(t *testing.T) {
 			inboundPayloads(n)
 			listFlows(n)
 		}
+		for _, n := range nodes {
+			redelivery(n)
+			aliasAttack(n)
+		}
+		creation(w, nodes)
+		servingSituations(nodes[0])
+		servingSituations(nodes[3])
 		for _, n := range nodes {
 			queries(n, "after-inbound")
 		}
@@ -847,6 +906,15 @@ func TestCheck(t *testing.T) {
 	}
 	if r.Get("payloads_stored_for_transaction_already_in_dag") == 0 {
 		r.Fatalf("no inbound payload was stored: the payload-store comparison saw no positive case")
+	}
+	if r.Get("redelivery_range_conversations") == 0 || r.Get("redelivery_known_absent_with_mismatching_payload") == 0 {
+		r.Fatalf("no known transaction without payload was re-delivered with a mismatching payload (range conversations: %d)", r.Get("redelivery_range_conversations"))
+	}
+	if r.Get("alias_admitted") == 0 {
+		r.Fatalf("no transaction re-using the payload hash of a private transaction was admitted: the same-payload-hash strategy was not exercised")
+	}
+	if r.Get("create/created") == 0 || r.Get("create/refused") == 0 {
+		r.Fatalf("CreateTransaction: %d created, %d refused: the participant situations were not exercised", r.Get("create/created"), r.Get("create/refused"))
 	}
 }
 
@@ -1030,7 +1098,7 @@ func (n *node) knownTxs() []*txInfo {
 	n.snapshot()
 	var out []*txInfo
 	for _, ti := range n.w.all {
-		if n.dagRefs[ti.tx.Ref()] {
+		if ti.tx != nil && n.dagRefs[ti.tx.Ref()] {
 			out = append(out, ti)
 		}
 	}
